@@ -138,7 +138,7 @@ _Bool g_load_ok, g_sched_ok, g_iv_ok;
 /* Pointer preconditions: when the contract is *enforced* the objects are created by is_fresh; when it *replaces* a call
  * inside the constructor the block pointer points into the middle of the message / the writer buffer, so validity is
  * stated with r_ok / w_ok (C10_PB_REPLACED is defined by the harness of the constructor groups). */
-#ifdef C10_PB_REPLACED
+#if defined(C10_PB_REPLACED) || defined(C10_PB_UNALIGNED)   /* (C10_PB_UNALIGNED: the harness passes a block that starts 1..3 bytes into an object) */
 #define C10_PB_PTRS(self, blk) (__CPROVER_w_ok(self, sizeof(C10_T)) && __CPROVER_r_ok(blk, 64))
 #else
 #define C10_PB_PTRS(self, blk) (__CPROVER_is_fresh(self, sizeof(C10_T)) && __CPROVER_is_fresh(blk, 64))
